@@ -23,7 +23,7 @@ from sim.core.seams import Seams
 MARKUP = '<b id=simx>&"\'</b>'
 MSGS = {'plain': 'division by zero', 'markup': 'bad ' + MARKUP + ' value', 'template': '{tb_str} {#mon_files}{.}{/mon_files} {~lb}',
         'nonascii': 'défaut ☃ 中文', 'colon': 'a: b: c', 'multiline': 'line one\nline two\n  indented', 'empty': '',
-        'percent': '100%s %(x)d', 'long': 'm' * 3000, 'very-long': 'first words ' + 'v' * 9000 + ' last words', 'exactly-4096': 'x' * 4096, 'around-4k': 'begin ' + 'y' * 4085, 'ignored': 'job 7 ignored', 'exception-word': 'Exception ignored'}
+        'percent': '100%s %(x)d', 'long': 'm' * 3000, 'trailing-tab': 'bad separator \t', 'trailing-spaces': 'ends in blanks   ', 'leading-space': ' starts with a blank', 'very-long': 'first words ' + 'v' * 9000 + ' last words', 'exactly-4096': 'x' * 4096, 'around-4k': 'begin ' + 'y' * 4085, 'ignored': 'job 7 ignored', 'exception-word': 'Exception ignored'}
 EXCS = ['Exception', 'Exception', 'ZeroDivisionError', 'ValueError', 'KeyError', 'ImportError', 'ModuleNotFoundError', 'AttributeError', 'NameError',
         'TypeError', 'RuntimeError', 'OSError', 'UnicodeDecodeError', 'RecursionError', 'CustomError']
 FILES = ['/app/main.py', '/app/pkg/<b id=simx>.py', '/app/ünï.py', '/app/a&b.py', '/app/{tmpl}.py', '/app/' + 'd' * 300 + '.py',
@@ -50,7 +50,7 @@ def resolve_file(f):
             .replace('{clastic}', os.path.dirname(clastic.__file__)))
 
 
-PATHS = ['/%0A', '/x%0A', '/%0D%0A', '/', '/x/y', '/clastic_assets/nope', '/a//b/', '/%3Cb%3E', '/clastic_assets/..', '/clastic_assets/../flaw.py',
+PATHS = ['//', '///', '//x', '/x//', '/%0A', '/x%0A', '/%0D%0A', '/', '/x/y', '/clastic_assets/nope', '/a//b/', '/%3Cb%3E', '/clastic_assets/..', '/clastic_assets/../flaw.py',
          '/clastic_assets/x/../../y', '/clastic_assets//etc/hosts', '/clastic_assets/..hidden', '/clastic_assets/', '/clastic_assets',
          '/clastic_assets/common.css/', '/clastic_assets/%2e%2e/%2e%2e/setup.py']
 
